@@ -29,15 +29,20 @@ def run(ctx):
     ctx.rule = ('a case is one AWK program with an operand list, file contents and standard input: families body (18 commands '
                 '-- the getline forms incl. into a field / array element / from a function, next, nextfile, exit, close -- x 5 '
                 'patterns x 12 operand lists), range (5 range patterns x 8 commands x 12 operand lists; pairs of ranges), begin '
-                '(getline before the main loop, ARGV/ARGC edits, exit in BEGIN), end; or one random multi-rule program recorded '
+                '(getline before the main loop, ARGV/ARGC edits incl. numbers assigned to ARGV, exit in BEGIN), end, long (2100 records, '
+                'next/getline/return inside functions on every record); getline < "-" while the main input comes from files; or one random multi-rule program recorded '
                 'from the real interpreter; every case traces NR FNR FILENAME $0 NF after every step, so all are non-trivial')
     ctx.assumptions += [
         'files are served through Config.OpenFile from a private directory; commands ("cmd" | getline) are exercised by C13, not here',
         'FILENAME while standard input is being read is not judged (the trace masks "-")',
+        'standard input read both by the main loop and through getline < "-" in one run is not judged (two independent readers)',
         'missing file operands and RS/FS other than the defaults are not generated (C06/C07 own separators)',
     ]
     ctx.build()
     ctx.tlc('Gen_MainLoop', ctx.cfg('Gen_MainLoop'), capture='cases.ndjson', timeout=1500, heap='8g')
+    # long inputs (2100 records: next / getline / return from inside functions on every record -- nothing may accumulate)
+    glong = ctx.cfg('Gen_MainLoop', name='Gen_MainLoop_long', constants={'Families': '{"long"}', 'Fuel': 20000})
+    ctx.tlc('Gen_MainLoop', glong, capture='cases.ndjson', timeout=1500, heap='8g', workers=4)
     ctx.cov['exhaustive'] = True
     ctx.replay('cases.ndjson', label='gen-mainloop', min_cases=1500, corrupt=corrupt)
     ntr = 300 if q else 4000
